@@ -121,6 +121,7 @@ def run(tier, seed, driver):
 
 def _run(res, rng, tier, driver, work):
     n_gw, n_direct = (40, 160) if tier == "quick" else (700, 4000)
+    n_gw, n_direct = n_gw * common.effort(tier), n_direct * common.effort(tier)
     states = corpus()
     for i in range(n_gw):
         version = rng.choice(["1.4", "1.5", "2.0", "2.1", "2.2"])
